@@ -125,9 +125,10 @@ CHECKS = {
             "pending events stably sorted by the world's comparator and demands exactly-once as for C05.",
             "TLA+ model checking (TLC) + transition-cover replay + TLC trace validation with comparator-parametric abstract queue"),
     "C03": (MC, "7/C03", "conc",
-            "ConcCL.tla (threads x micro-steps of callbacklist.h: atomic counter draw, unlocked before.lock(), one step per critical section, the "
-            "traversal's head / counter / test / step) is model-checked by TLC over all interleavings of the scenario sets with the abstract list "
-            "updated at the linearization points. The real CallbackList and EventDispatcher (std::map, std::unordered_map) run every scenario under "
+            "ConcCL.tla (threads x micro-steps of callbacklist.h: unlocked before.lock(), one step per critical section incl. the generation draw and its "
+            "wrap-around, the traversal's head+counter / test / step; the counter wraps at every position of the scenarios; the protocol before the D11 repair "
+            "- generation drawn outside the mutex - is kept as defect draw_unlocked and must violate Reachable) is model-checked by TLC over all interleavings "
+            "of the scenario sets with the abstract list updated at the linearization points. The real CallbackList and EventDispatcher (std::map, std::unordered_map) run every scenario under "
             "the controlled scheduler (dfs with preemption bound + random); TraceCC.tla decides linearizability by tracking the set of abstract "
             "configurations consistent with the recorded begin/end history (results, at-most-once removal, final order) and the visit rules of "
             "concurrent traversals; deadlock (stuck) and unlocked structural accesses have no step in the specification. The same scenarios also run "
@@ -161,7 +162,8 @@ CHECKS = {
             "a scheduling point before and after every atomic operation and at the unlocked list read; TraceCQ.tla demands that a true result (or a "
             "time-out with no DisableQueueNotify) implies complete consumption of everything enqueued before the call began. The single-threaded "
             "form (observer is a listener) is decided by C05's cover through TraceDQ.tla. The scenarios include processing calls of two threads that "
-            "overlap without nesting, and run on HeterEventQueue as well.",
+            "overlap without nesting, DisableQueueNotify objects of two threads coming and going before an enqueue and a waitFor (the counter must count the "
+            "objects: defect dqn_dec_split), and run on HeterEventQueue as well.",
             "TLA+ model checking (TLC) + systematic schedule exploration of the real code + TLC trace validation"),
     "C20": (MC, "7/C20", "seq",
             "The implementation-shaped models carry the configuration hazards as explicit nondeterminism / defects (argument evaluation order and "
